@@ -55,6 +55,9 @@ class Kernel:
         it.hooks.update({'mutex::lock': self.h_lock, 'mutex::unlock': self.h_unlock, 'unique_lock::unlock': self.h_ul_unlock, 'unique_lock::lock': self.h_ul_lock,
                          'mutex::try_lock': self.h_try_lock, 'condition_variable::wait_for': self.h_wait_for, 'thread::swap': self.h_thread_swap,
                          'condition_variable::wait': self.h_wait, 'condition_variable::notify_one': self.h_notify_one, 'condition_variable::notify_all': self.h_notify_all,
+                         'atomic::exchange': self.h_at_exchange, 'atomic::store': self.h_at_store, 'atomic::load': self.h_at_load, '__atomic_base::exchange': self.h_at_exchange,
+                         '__atomic_base::store': self.h_at_store, '__atomic_base::load': self.h_at_load, 'atomic::operator=': self.h_at_store, '__atomic_base::operator=': self.h_at_store,
+                         'atomic::operator bool': self.h_at_load, 'atomic::operator int': self.h_at_load, '__atomic_base::operator bool': self.h_at_load,
                          'thread::join': self.h_join, 'thread::joinable': self.h_joinable, 'thread::detach': self.h_detach, 'get_id': lambda it, f, st, a: self.current.tid})
 
     # ---- choices
@@ -249,6 +252,31 @@ class Kernel:
 
     def h_unlock(self, it, f, st, a):
         self._unlock(self._mutex_of(it.cur_obj, f, st), f, st)
+
+    # ---- std::atomic<T>: a cell of its own; every operation on it is a scheduling point
+    def _atomic(self, it, f, st):
+        rec = it.record_of(it.cur_obj)
+        if rec is None:
+            raise AnalysisBroken('%s: atomic operation on something the replay does not hold (%s)' % (f.short, f.loc(st['i'])))
+        return rec
+
+    def h_at_exchange(self, it, f, st, a):
+        rec = self._atomic(it, f, st)
+        self.reschedule('atomic')
+        old = rec.get('v', 0)
+        rec['v'] = a[0]
+        return old
+
+    def h_at_store(self, it, f, st, a):
+        rec = self._atomic(it, f, st)
+        self.reschedule('atomic')
+        rec['v'] = a[0]
+        return a[0]
+
+    def h_at_load(self, it, f, st, a):
+        rec = self._atomic(it, f, st)
+        self.reschedule('atomic')
+        return rec.get('v', 0)
 
     def h_try_lock(self, it, f, st, a):
         m = self._mutex_of(it.cur_obj, f, st)
